@@ -1,0 +1,9 @@
+//go:build verif
+
+package ring
+
+// VerifState exposes the private layout of the buffer (start index, used byte
+// count and a copy of the raw storage) to the verification harness.
+func (b *Buffer) VerifState() (start, used int, storage []byte) {
+	return b.start, b.used, append([]byte(nil), b.storage...)
+}
